@@ -54,7 +54,7 @@ let () =
       with e -> Printf.printf "%s MODELERROR %s\n" id (Printexc.to_string e))
     | [id; "S"; nu; cts; mans; opss; _] ->
       (* store-level model (Model/GraphStore.v, repaired gcIndex):
-         P<n> Push, T<n> Tag, X<n> delete, G<k.k.k> GC keeping the untagged manifests k,
+         P<n> Push, T<n> Tag, U<n> n loses its last tag name, X<n> delete, G<k.k.k> GC keeping the untagged manifests k,
          O reopen, S observe (stored set, then Predecessors of every key) *)
       (try
         let nu = int_of_string nu in
@@ -76,6 +76,7 @@ let () =
           match t.[0] with
           | 'P' -> apply (PPush (arg ()))
           | 'T' -> apply (PTag (arg ()))
+          | 'U' -> apply (PUntag (arg ()))
           | 'X' -> apply (PDelete (arg ()))
           | 'G' ->
             let kept = if rest = "" then [] else List.map (fun x -> n_of_int (int_of_string x)) (String.split_on_char '.' rest) in
